@@ -53,7 +53,7 @@ def secret_case(draw):
         "auth": ["usr", canary("A")] if draw(st.booleans()) else None,
         # a password may contain `@` (written %40 in the URL): both halves are secrets
         "userinfo": None,
-        "userinfo_kind": draw(st.sampled_from([None, None, "plain", "with-at"])),
+        "userinfo_kind": draw(st.sampled_from([None, None, "plain", "with-at", "token-as-user-name", "token-as-user-name"])),
         "set_query": {"api_key": canary("Q")} if draw(st.booleans()) else {},
         "control_query": {"page": canary("P")} if draw(st.booleans()) else {},
         "set_cookie": {"session": canary("K")} if draw(st.booleans()) else {},
@@ -66,8 +66,11 @@ def secret_case(draw):
         "phases": draw(st.sampled_from([["fuzzing"], ["coverage", "fuzzing"], ["examples", "coverage", "fuzzing", "stateful"]])),
         "seed": draw(st.integers(0, 1000)),
     }
-    if inp["userinfo_kind"] == "plain":
+    if inp["userinfo_kind"] in ("plain", "token-as-user-name"):
         inp["userinfo"] = [canary("U")]
+        if inp["userinfo_kind"] == "token-as-user-name":
+            # requests without any query string: nothing but the userinfo is left to redact in their URLs
+            inp["set_query"], inp["control_query"] = {}, {}
     elif inp["userinfo_kind"] == "with-at":
         inp["userinfo"] = [canary("U"), canary("V")]  # password `<U>@<V>`
     if "x-api-key" in {k.lower() for k in inp["sensitive_headers"]}:
@@ -122,7 +125,10 @@ def check_secrets(ctx: Ctx, inp) -> None:
             json.dump(build_doc(inp), fd)
         url = server.url
         if inp["userinfo"]:
-            url = url.replace("http://", f"http://apiuser:{'%40'.join(inp['userinfo'])}@")
+            if inp.get("userinfo_kind") == "token-as-user-name":
+                url = url.replace("http://", f"http://{inp['userinfo'][0]}@")  # `http://<token>@host`, no password
+            else:
+                url = url.replace("http://", f"http://apiuser:{'%40'.join(inp['userinfo'])}@")
         report_dir = os.path.join(workdir, "reports")
         args = ["/venv/bin/st", "run", schema_path, "--url", url, "--report", "junit,vcr,har", "--report-dir", report_dir, "--phases", ",".join(inp["phases"]), "--max-examples", "3", "--seed", str(inp["seed"]), "--no-color", "--checks", "not_a_server_error", "--continue-on-failure", "--output-sanitize", "true" if inp["sanitize"] else "false"]
         for name, value in {**inp["sensitive_headers"], **inp["control_headers"]}.items():
@@ -184,18 +190,24 @@ def check_secrets(ctx: Ctx, inp) -> None:
                 for name, text in artefacts.items():
                     for form in fs:
                         if form in text:
-                            i = text.index(form)
-                            line_start = text.rfind("\n", 0, i) + 1
-                            line = text[line_start : text.find("\n", i) if text.find("\n", i) != -1 else len(text)]
-                            where = name
-                            sig = f"leak:{where}:{route.split(':')[0]}"
-                            if name.endswith("vcr.yaml") and line.startswith("command:"):
-                                sig = "leak:cassette-echoes-the-raw-command-line"
-                            elif name == "stdout" and route == "url-userinfo" and ("Base URL" in line or "Schema location" in line or "://" in line and "curl" not in line):
-                                sig = "leak:console-prints-the-url-with-userinfo"
-                            ctx.disagree(sig, f"{route} canary found in {name}: ...{line[:200]}...", input=inp)
+                            # every line that shows the secret is classified on its own: a recorded finding on one line
+                            # (the echoed command line) must not hide another leak in the same file
+                            reported = set()
+                            for line in text.split("\n"):
+                                if form not in line:
+                                    continue
+                                where = name
+                                sig = f"leak:{where}:{route.split(':')[0]}"
+                                if name.endswith("vcr.yaml") and line.startswith("command:"):
+                                    sig = "leak:cassette-echoes-the-raw-command-line"
+                                elif name == "stdout" and route == "url-userinfo" and ("Base URL" in line or "Schema location" in line or "://" in line and "curl" not in line):
+                                    sig = "leak:console-prints-the-url-with-userinfo"
+                                if sig in reported:
+                                    continue
+                                reported.add(sig)
+                                ctx.disagree(sig, f"{route} canary found in {name}: ...{line[:200]}...", input=inp)
                             break
-                        
+
         else:
             hidden = [route for route, fs in sensitive if route.split(":")[0] in ("header", "set-query") and not any(f in text for f in fs for text in artefacts.values())]
             if hidden and len(hidden) == len([r for r, _ in sensitive if r.split(":")[0] in ("header", "set-query")]):
@@ -357,6 +369,8 @@ def url_case(draw):
         sensitive = draw(st.booleans())
         name = draw(st.sampled_from(URL_SENSITIVE if sensitive else URL_PLAIN))
         query.append([name, draw(st.sampled_from(["", "plain"])) if draw(st.integers(0, 5)) == 0 else fresh(), sensitive])
+        if not sensitive and draw(st.integers(0, 3)) == 0:
+            query[-1][1] = None  # a field without `=` (`?acl&api_key=...`)
     userinfo = draw(st.sampled_from([None, None, "user-only", "user:password", "user:password", "raw-at-in-password"]))
     return {
         "userinfo": userinfo,
@@ -366,6 +380,7 @@ def url_case(draw):
         "path": draw(st.sampled_from(["", "/", "/v1/items", "/a b/%41", "/it's", "/x;y=1"])),
         "scheme": draw(st.sampled_from(["http", "https"])),
         "query": query,
+        "noise": draw(st.sampled_from(["", "", "", "trailing-&", "double-&", "leading-&"])),
     }
 
 
@@ -386,12 +401,18 @@ def check_url(ctx: Ctx, inp) -> None:
         # what people type: reserved characters left as they are (only the ones that would end the authority are escaped)
         raw = "".join(c if c not in "/?#[] \\" and 32 < ord(c) < 127 else quote(c, safe="") for c in f"{inp['user']}:{inp['password']}@tail")
         netloc = f"{raw}@{netloc}"
-    qs = "&".join(f"{quote_plus(k)}={quote_plus(v)}" for k, v, _ in inp["query"])
+    fields = [quote_plus(k) if v is None else f"{quote_plus(k)}={quote_plus(v)}" for k, v, _ in inp["query"]]
+    noise = inp.get("noise", "")
+    if fields and noise == "double-&":
+        fields.insert(1, "")
+    qs = "&".join(fields)
+    if qs:
+        qs = {"trailing-&": qs + "&", "leading-&": "&" + qs}.get(noise, qs)
     url = f"{inp['scheme']}://{netloc}{quote(inp['path'], safe='/;=%')}" + (f"?{qs}" if qs else "")
     out = sz.sanitize_url(url)
     ctx.case(nontrivial=inp if (inp["userinfo"] or any(s for _, _, s in inp["query"])) else None, classes=[f"userinfo={inp['userinfo']}", f"sensitive-params={sum(1 for *_, s in inp['query'] if s)}", f"plain-params={sum(1 for *_, s in inp['query'] if not s)}"], sample={"url": url, "sanitized": out})
     secrets = [inp[k] for k in ("user", "password") if inp.get(k) and not (k == "user" and inp["userinfo"] == "user-only" and False)]
-    secrets += [v for _, v, s in inp["query"] if s and v.startswith("CN")]
+    secrets += [v for _, v, s in inp["query"] if s and v and v.startswith("CN")]
     for secret in secrets:
         for form in {secret, quote(secret, safe=""), quote_plus(secret), quote(secret)}:
             if form in out:
@@ -406,7 +427,7 @@ def check_url(ctx: Ctx, inp) -> None:
         got.setdefault(k, []).append(v)
     want: dict = {}
     for k, v, s in inp["query"]:
-        want.setdefault(k, []).append(sz.DEFAULT_REPLACEMENT if s else v)
+        want.setdefault(k, []).append(sz.DEFAULT_REPLACEMENT if s else (v or ""))
     sensitive_names = {k for k, _, s in inp["query"] if s}
     # sensitive names: present, every value is the marker (how many times a repeated name is written is not asked);
     # all other names: the same values
